@@ -460,10 +460,13 @@ type Events struct {
 	// EdgeGen adds events known on a branch edge (guards).
 	EdgeGen func(pkg *packages.Package, b *cfg.Block, i int, cond ast.Expr) []string
 	// Stop: callees that are not expanded (treated as opaque events).
-	Stop  func(*types.Func) bool
-	Depth int
-	memo  map[evKey]Facts
-	busy  map[evKey]bool
+	Stop func(*types.Func) bool
+	// FlowFor, when set, may supply a restricted view of a callee's body (for
+	// instance the paths of a lifetime-dispatching helper that a lifetime takes).
+	FlowFor func(body *ast.BlockStmt) *Flow
+	Depth   int
+	memo    map[evKey]Facts
+	busy    map[evKey]bool
 }
 
 type evKey struct {
@@ -552,6 +555,11 @@ func (e *Events) ofBody(pkg *packages.Package, body *ast.BlockStmt, must bool, d
 	e.busy[key] = true
 	defer delete(e.busy, key)
 	fl := NewFlow(e.W, pkg, body, "")
+	if e.FlowFor != nil {
+		if rf := e.FlowFor(body); rf != nil {
+			fl = rf
+		}
+	}
 	binds := litBindings(pkg.TypesInfo, body)
 	sol := fl.Solve(Spec{Must: must, Node: func(n ast.Node, in Facts) ([]string, []string) {
 		return e.OfNode(pkg, binds, n, must, depth), nil
@@ -582,7 +590,7 @@ func (e *Events) ofBody(pkg *packages.Package, body *ast.BlockStmt, must bool, d
 	} else {
 		res = Facts{}
 		for _, b := range fl.G.Blocks {
-			if b.Live {
+			if fl.live(b) {
 				for k := range sol.Out[b] {
 					res[k] = true
 				}
